@@ -1,8 +1,10 @@
 """C11 - compositing agrees with the Porter-Duff / PDF 1.7 11.4 transparency-group formulas."""
 from __future__ import annotations
 
+import glob
 import json
 import logging
+import os
 import time
 
 from . import comp_common as cc
@@ -52,6 +54,33 @@ def evaluate(spec, color, alpha, viewport=None, root_path=None):
     return None, (c, s, a), skipped
 
 
+# ------------------------------------------------------------------ known finding F-C11-1
+W_C11_1 = {"mode": "L", "docalpha": False, "size": [2, 1], "layers": [
+    {"k": "px", "bbox": [0, 0, 1, 1], "color": [[51]], "alpha": [255], "noalpha": True, "op": 255, "fill": None, "vis": True,
+     "bm": "normal", "clip": False, "ko": False, "mask": None}]}
+
+core.KNOWN_CLASSIFIERS["F-C11-1"] = lambda fl: (
+    fl["kind"] in ("differs-from-pdf-formulas", "differs-from-porter-duff-over")
+    and cc.noalpha_exposed(fl["input"]["spec"], fl["input"].get("viewport")))
+
+
+def _w_c11_1():
+    logging.disable(logging.WARNING)
+    c, s, a = cc.run_impl(cc.build_doc(W_C11_1))
+    return abs(float(a[0][1])) > 0.5  # the pixel right of the 1x1 layer is reported opaque (and white)
+
+
+core.KNOWN_WITNESS["F-C11-1"] = _w_c11_1
+
+
+def safe_evaluate(spec, color, alpha, viewport=None, root_path=None):
+    """evaluate, with an exception of the implementation turned into a failure of kind raises-<Class>"""
+    try:
+        return evaluate(spec, color, alpha, viewport, root_path)
+    except Exception as e:
+        return {"kind": "raises-" + type(e).__name__, "observed": repr(e)[:300], "expected": "a composite"}, (None, None, None), 0
+
+
 def grid_specs():
     """systematic two-layer stacks on a 1x1 grey canvas: backdrop alpha x top alpha x top opacity x every mode"""
     for bm in cc.ORACLE_SEP:
@@ -90,6 +119,8 @@ def nested_specs(rng, n):
 def run():
     logging.disable(logging.WARNING)
     ck = Check("C11")
+    for old in glob.glob(os.path.join(core.BUILD, "replays", "C11-*.json")):
+        os.remove(old)  # replays of earlier runs must not be mistaken for this run's
     thorough = ck.tier == "thorough"
     ck.rule = ("documents built through the public API (PSDImage.new, PixelLayer.frompil, Group.new, append, attribute setters): "
                "1-8 pixel layers, nesting <= 3, boxes inside / straddling / outside a canvas <= 6x6, per-pixel alpha from {0,64,128,255}, "
@@ -108,7 +139,7 @@ def run():
         col, al = cc.gen_backdrop(ck.rng, 3)
         inputs.append(("nested", spec, col, al, None, None))
     for _ in range(30000 if thorough else 2500):
-        spec = cc.gen_doc(ck.rng, ALL_MODES)
+        spec = cc.gen_doc(ck.rng, ALL_MODES, p_noalpha=0.04)
         col, al = cc.gen_backdrop(ck.rng, cc.NCH[spec["mode"]])
         inputs.append(("random", spec, col, al, None, None))
         if ck.rng.random() < 0.15:
@@ -117,7 +148,7 @@ def run():
                 inputs.append(("group-entry", spec, col, al, None, (ck.rng.choice(tops),)))
     model_inputs = []
     for _ in range(6000 if thorough else 450):
-        spec = cc.gen_doc(ck.rng, MODEL_MODES)
+        spec = cc.gen_doc(ck.rng, MODEL_MODES, p_noalpha=0.04)
         col, al = cc.gen_backdrop(ck.rng, cc.NCH[spec["mode"]])
         W, H = spec["size"]
         vp = None
@@ -130,10 +161,7 @@ def run():
     for stream, spec, col, al, vp, root in inputs + model_inputs:
         ck.count("stream:" + stream)
         ck.count("mode:" + spec["mode"] + ("+A" if spec["docalpha"] else ""))
-        try:
-            fl, (c, s, a), skipped = evaluate(spec, col, al, vp, root)
-        except Exception as e:  # the implementation (or the builder) raised
-            fl, c, skipped = {"kind": "raises-" + type(e).__name__, "observed": repr(e)[:300], "expected": "a composite"}, None, 0
+        fl, (c, s, a), skipped = safe_evaluate(spec, col, al, vp, root)
         ck.count("pixels-skipped-near-blend-discontinuity", skipped)
         feats = cc.features(spec)
         for f in feats:
@@ -146,15 +174,17 @@ def run():
                 ck.nontriv(json.dumps([spec, col, al, vp, root], sort_keys=True))
         if fl is not None:
             inp = {"spec": spec, "color": col, "alpha": al, "viewport": vp, "root": root}
-            if fl["kind"] not in shrunk and root is None:  # shrink the first failure of each kind
+            if root is not None:
+                inp["viewport"] = list(cc.ref_bbox(spec["layers"][root[0]]))
+            if fl["kind"] not in shrunk and root is None and ck.classify(dict(fl, input=inp)) is None:  # shrink the first unlisted failure of each kind
                 shrunk.add(fl["kind"])
                 kind = fl["kind"]
 
                 def still(v, kind=kind):
-                    f2, _, _ = evaluate(v, col, al, vp if v["size"] == spec["size"] else None, None)
+                    f2, _, _ = safe_evaluate(v, col, al, vp if v["size"] == spec["size"] else None, None)
                     return f2 is not None and f2["kind"] == kind
                 small = cc.shrink(spec, still)
-                f2, _, _ = evaluate(small, col, al, vp, None)
+                f2, _, _ = safe_evaluate(small, col, al, vp, None)
                 if f2 is not None:
                     inp, fl = {"spec": small, "color": col, "alpha": al, "viewport": vp, "root": None}, f2
             ck.fail(fl["kind"], inp, fl["observed"], fl["expected"])
@@ -176,6 +206,7 @@ def run():
         "pixels where a discontinuous blend mode is evaluated within 1/20000 of a jump are excluded from the comparison (counted)",
         "clipping runs have no PDF counterpart: the reference paints the clip layers over (base colour, base alpha) as a non-isolated backdrop and keeps the base's shape and alpha",
         "dissolve is excluded (the code maps it to normal); soft light uses the Photoshop formula accepted by C12",
+        "a pixel layer without a transparency plane (finding F-C11-1, fixed by a5674d4) is given to the Coq model as an all-255 plane",
         "not modelled / not generated: vector masks, strokes, layer effects, fills, adjustment layers, smart objects, type layers, ICC and the PIL conversion of composite_pil, depths 16/32",
     ]
     return ck.finish()
@@ -185,11 +216,13 @@ def replay(path):
     logging.disable(logging.WARNING)
     fl = json.load(open(path))
     inp = fl["input"]
-    f2, (c, s, a), _ = evaluate(inp["spec"], _col(inp["color"]), inp["alpha"], inp.get("viewport"), tuple(inp["root"]) if inp.get("root") else None)
+    root = tuple(inp["root"]) if inp.get("root") else None
+    f2, (c, s, a), _ = safe_evaluate(inp["spec"], _col(inp["color"]), inp["alpha"], None if root else inp.get("viewport"), root)
     print("document:", json.dumps(inp["spec"]))
     print("backdrop colour/alpha:", inp["color"], inp["alpha"], "viewport:", inp.get("viewport"))
-    print("implementation alpha:", a.tolist())
-    print("implementation colour:", c.tolist())
+    if a is not None:
+        print("implementation alpha:", a.tolist())
+        print("implementation colour:", c.tolist())
     print("failure now:", f2)
     print("recorded kind:", fl["kind"], "| expected:", fl["expected"])
     return 1
